@@ -1,6 +1,7 @@
 import MgpuModel.Util
 import MgpuModel.C14_Flush
 import MgpuModel.C14_Vmu
+import MgpuModel.C14_Arb
 /-! # C14 — barriers, wait counts and wavefront termination
 
 Hand-written transcription (tie H) of the timing scheduler's *internal instruction* logic
@@ -698,6 +699,7 @@ def handle (line : String) : String :=
     if toks.contains "flush" then Flush.handle toks ops else
     if toks.contains "samp" then handleSamp toks ops else
     if toks.contains "vmu" then Vmu.handle toks ops else
+    if toks.contains "arb" then Arb.handle toks else
     if toks.contains "issue" then
       match kvNat? toks "v", kvNat? toks "s" with
       | some v, some sc => let r := issueFlat v sc; s!"ok=true v={r.1} s={r.2}"
